@@ -560,7 +560,12 @@ class World:
         if t is None:
             return None
         if generation_like:
-            t = Tx(t.ins + [(ZERO32, MINUS1, b'gen', 0)], t.outs, t.version, t.locktime)
+            outs = list(t.outs)
+            if rng.random() < 0.5:
+                # the generation-like input "brings" value: outputs exceed the ordinary inputs (the documented fee is then 0)
+                outs[0] = (outs[0][0] + rng.randrange(1, 5000), outs[0][1])
+                self.features.add('genlike_outputs_exceed_inputs')
+            t = Tx(t.ins + [(ZERO32, MINUS1, b'gen', 0)], outs, t.version, t.locktime)
         self.mempool[t.hash] = t
         self.txs[t.hash] = t
         self.bump()
